@@ -1,7 +1,8 @@
 (* C19 for the two example instances: the obligations on the regenerated tables are decidable checks
    (evaluated in Props/C19.v by vm_compute); here they are connected to the generic theorems. *)
 From P2 Require Import Base.Prelude Base.PreludeProofs Sem.Num Sem.NumProofs Lex.Token Syn.Ast Syn.Parse Syn.Render
-  Gen.Generic Gen.GenericProofs Gen.Instances Generated.ExampleCfg.
+  Gen.Generic Gen.GenericProofs Gen.Instances Generated.ExampleCfg Syn.Full Gen.GenericFull Gen.GenericFullProofs.
+From P2 Require Lex.Tok Lex.TokProofs.
 Require Import Lia.
 Local Open Scope N_scope.
 
@@ -179,3 +180,40 @@ Definition float_grid : list fl :=
   [fl_zero; FFin 1 0; FFin (-1) 0; FFin 1 1; FFin 3 0; FFin (-3) 0; FFin 1 (-1); FFin (-3) (-1); FFin 1 2;
    FFin 1 (-2); FFin 1 3; FFin 5 (-1); FNegZero].
 Definition float_regroup_on_grid (c : gcfg fl) : bool := regroup_check fl c float_grid fl_beq.
+
+(* ---------- the full grammar (let, if-then-else), from tokens and from text ---------- *)
+Theorem bool_tree_correct_cfg : forall c : gcfg bool, bool_table_ok c = true ->
+  forall r args vals v (opt : bool),
+    fwf (pcfg_of c) r = true -> accepts bool c args r = true -> length args = length vals ->
+    fdenote c (rho_of args vals) r = Some v -> run_tree c opt args r vals = ROk v.
+Proof.
+  intros c H. apply andb_prop in H. destruct H as [H1 H2].
+  exact (generic_tree_correct bool c H1 (regroup_check_ok bool c bool_all bool_all_in Bool.eqb bool_eqb_eq H2)).
+Qed.
+
+Theorem bool_text_correct_cfg : forall c : gcfg bool, bool_table_ok c = true ->
+  forall tc items r args vals v (opt : bool),
+    P2.Lex.TokProofs.ops_ok tc -> P2.Lex.TokProofs.wf_layout tc tInvalid false items ->
+    P2.Lex.TokProofs.lexeme_tokens items = fflatten (pcfg_of c) r ->
+    fwf (pcfg_of c) r = true -> accepts bool c args r = true -> length args = length vals ->
+    fdenote c (rho_of args vals) r = Some v ->
+    run_text c tc opt args (P2.Lex.Tok.layout_text items) vals = ROk v.
+Proof.
+  intros c H. apply andb_prop in H. destruct H as [H1 H2].
+  exact (generic_text_correct bool c H1 (regroup_check_ok bool c bool_all bool_all_in Bool.eqb bool_eqb_eq H2)).
+Qed.
+
+Theorem float_tree_correct : float_flags_justified ex_float_ops = true -> cfg_ok fl float_cfg = true ->
+  forall r args vals v (opt : bool),
+    fwf (pcfg_of float_cfg) r = true -> accepts fl float_cfg args r = true -> length args = length vals ->
+    fdenote float_cfg (rho_of args vals) r = Some v -> run_tree float_cfg opt args r vals = ROk v.
+Proof. intros J H. exact (generic_tree_correct fl float_cfg H (float_regroup_ok J)). Qed.
+
+Theorem float_text_correct : float_flags_justified ex_float_ops = true -> cfg_ok fl float_cfg = true ->
+  forall tc items r args vals v (opt : bool),
+    P2.Lex.TokProofs.ops_ok tc -> P2.Lex.TokProofs.wf_layout tc tInvalid false items ->
+    P2.Lex.TokProofs.lexeme_tokens items = fflatten (pcfg_of float_cfg) r ->
+    fwf (pcfg_of float_cfg) r = true -> accepts fl float_cfg args r = true -> length args = length vals ->
+    fdenote float_cfg (rho_of args vals) r = Some v ->
+    run_text float_cfg tc opt args (P2.Lex.Tok.layout_text items) vals = ROk v.
+Proof. intros J H. exact (generic_text_correct fl float_cfg H (float_regroup_ok J)). Qed.
